@@ -879,6 +879,9 @@ done:
 					}
 				}
 			} else {
+				// The expansion of prev is done. Clear the flag so a sibling of
+				// prev that shares this marker is expanded as well.
+				stack[len(stack)-1] = di &^ descentFlag
 				stack = append(stack, prev)
 			}
 		case Root:
